@@ -246,3 +246,76 @@ def run_path(data: bytes, want=None, tmpdir=None) -> str:
             _tls.sink = None
     finally:
         os.unlink(p)
+
+
+# ------------------------------------------------------------------------------------------------------------------
+# A process with a past. Every property quantifies over all charts in *any* process state, so each slice runs after other
+# charts were parsed and queried in the same interpreter: charts with other tempo maps and resolutions but the same ticks,
+# [Song] sections with every field set, parses that fail half-way, lines of one kind met in sections of another, every public
+# read-only query. On code without cross-call state this changes nothing; answers remembered under too small a key (tick only,
+# (resolution, tick), raw line only), defaults that accumulate, scratch state left by a failed parse — all become visible to
+# the property's own truth oracle in the cases that follow.
+
+_polluted = False
+
+
+def pollute(seed: int = 0):
+    global _polluted
+    if _polluted:
+        return
+    _polluted = True
+    import random
+    from datetime import timedelta as _td
+
+    from . import gen
+
+    rng = random.Random(f"past-{seed}")
+    ins, dif = enums()
+    texts = []
+    prof = gen.Profile(max_tracks=3, max_groups=10, max_events=6, max_tempo=4, garbage=0.3, unknown_sections=0.3, meta_fields=0.9,
+                       resolutions=(192, 480, 100, 1, 2, 3, 96, 1000, 120))
+    for k in range(24):
+        src = gen.rand_src(rng, prof)
+        if k % 3 == 0:  # the tempo maps most likely to share ticks with later charts: events at small round ticks
+            src.tempo = [(0, rng.choice([60000, 90000, 120000, 1, 999999999]))] + [(t, rng.randint(1, 10**6)) for t in (96, 192, 384, 768)[: rng.randint(0, 4)]]
+        texts.append(gen.render(src, rng, prof).text)
+    head = "[Song]\n{\n  Resolution = 192\n}\n[SyncTrack]\n{\n  0 = TS 4\n  0 = B 120000\n  400 = B 60000\n}\n[Events]\n{\n}\n"
+    texts += [
+        head + "[ExpertSingle]\n{\n  0 = N 0 0\n  100 = N 1 0\n  450 = N 2 0\n  120 = N 3 0\n}\n",      # fails while building notes
+        head + "[HardDrums]\n{\n  0 = N 0 500\n  0 = N 1 0\n  100 = S 2 50\n  100 = S 2 50\n  120 = E solo\n}\n",
+        head.replace("  400 = B 60000\n", "  400 = B 0\n") + "[EasySingle]\n{\n  500 = N 0 0\n}\n",           # zero tempo governs a note
+        "[Song]\n{\n}\n[SyncTrack]\n{\n}\n[Events]\n{\n}\n", "", "\n", "[Song]\n{\n  Resolution = 192\n}\n",
+        head.replace("[Events]\n{\n}", "[Events]\n{\n  0 = N 0 0\n  5 = B 120000\n  7 = E \"section a\"\n  7 = E \"lyric b\"\n  9 = E \"c\"\n}")
+        + "[ExpertSingle]\n{\n  0 = B 120000\n  0 = TS 4\n  3 = E \"section a\"\n  4 = N 0 0\n}\n",
+    ]
+    for text in texts:
+        c, e, _ = parse(text)
+        if c is None:
+            continue
+        try:
+            be = c.sync_track.bpm_events
+            for t in list(range(0, 1200, 7)) + [1920, 3840, 5000, 10**6, -1]:
+                for f in (be.timestamp_at_tick, be.timestamp_at_tick_no_optimize_return):
+                    try:
+                        f(t)
+                    except ValueError:
+                        pass
+            for i in ins:
+                try:
+                    c[i]
+                except KeyError:
+                    pass
+                for d in dif:
+                    for a in ((), (0,), (0, 400), (96, 768), (_td(0), _td(seconds=2)), (_td(seconds=1),)):
+                        try:
+                            c.notes_per_second(i, d, *a)
+                        except ValueError:
+                            pass
+            str(c), repr(c), c == c
+            for dd in c.instrument_tracks.values():
+                for tr in dd.values():
+                    tr.last_note_end_timestamp, tr.header_tag, str(tr)
+                    for n in tr.note_events[:4]:
+                        n.longest_sustain, n.end_tick, str(n), hash(n.tick)
+        except Exception:  # noqa: BLE001  the past must never decide a verdict by itself
+            pass
